@@ -236,7 +236,10 @@ def run(tier, seed, replay=None):
             # byte-identical files in different languages (a header kept as .h and .hpp, one text as .js and .ts, two empty
             # files): each must be analysed as what ITS name says, whichever of the twins the walk meets first
             # (seeded change C06-10: results shared between files of equal checksum)
-            twin_c = "int area(int w, int h) {\n    int r = w * h;\n    return r;\n}\nint twice(int v) {\n    return v + v;\n}\n"
+            # (the C text holds a function-local struct with a member function: C++ reports it as a nested function, C does
+            #  not — byte-identical files of the two languages must each get THEIR measurements; seeded change C06-20)
+            twin_c = ("int area(int w, int h) {\n    struct acc {\n        int v;\n        int add(int x) {\n            v += x;\n            return v;\n        }\n    };\n"
+                      "    int r = w * h;\n    return r;\n}\nint twice(int v) {\n    return v + v;\n}\n")
             twin_js = "function area(w, h) {\n    const r = w * h;\n    return r;\n}\n"
             twins = {}
             dt = os.path.join(root, rng.choice(["", "a", "b", "c"]))
@@ -290,6 +293,14 @@ def run(tier, seed, replay=None):
                             chk.violation({"tree": t, "file": tp, "order": perm},
                                           f"{tp} is reported (as {e.get('language')}) although its name is not one the lexer table knows")
                         continue
+                    if e is not None and tl in ("C", "C++") and tp.endswith((".h", ".hpp", ".c", ".C", ".H")):
+                        alone = LC.impl_scan("C" if tl == "C" else "Cpp", twin_c)
+                        names_alone = [m[0] for m in alone]
+                        names_here = [m["unit_name"] for m in e.get("measurements", [])]
+                        if sorted(names_alone) != sorted(names_here):
+                            chk.violation({"tree": t, "file": tp, "order": perm},
+                                          f"{tp} (one of several byte-identical files) reports the functions {names_here}; analysed alone as {tl}: {names_alone}")
+                            continue
                     if e is not None and e.get("language") != tl:
                         chk.violation({"tree": t, "file": tp, "order": perm},
                                       f"{tp} (one of several byte-identical files) is reported as {e.get('language')}, its name says {tl}")
